@@ -189,6 +189,11 @@ def corpus():
     out = []
     # the allocation sized by a request field (peers.Suitable): participants = threshold = 2^32-1 on a distributed wallet
     out.append(("/v1.AccountManager/Generate", "client-test01", msg(fld(1, LEN, b"Wallet 3/Huge"), fld(2, LEN, b"pass"), fld(3, VARINT, (1 << 32) - 1), fld(4, VARINT, (1 << 32) - 1)), "generate-huge"))
+    # single-participant / degenerate generation asked of the DISTRIBUTED wallet (and threshold/participant corner pairs)
+    for pi, (np_, th_) in enumerate([(1, 1), (0, 0), (1, 0), (0, 1), (1, 2), (2, 1), (2, 2), (3, 2), (4, 3)]):
+        for cl in ("client-test01", "client-test02"):
+            out.append(("/v1.AccountManager/Generate", cl, msg(fld(1, LEN, b"Wallet 3/Single %d" % pi), fld(2, LEN, b"pass"), fld(3, VARINT, np_), fld(4, VARINT, th_)), "generate-dist-corner"))
+    out.append(("/v1.AccountManager/Generate", "client-test01", msg(fld(1, LEN, b"Wallet 3/Single np"), fld(3, VARINT, 1), fld(4, VARINT, 1)), "generate-dist-corner"))
     out.append(("/v1.AccountManager/Generate", "client-test01", msg(fld(1, LEN, b"Wallet 3/Huge2"), fld(2, LEN, b"pass"), fld(3, VARINT, 1 << 31), fld(4, VARINT, (1 << 30) + 1)), "generate-huge"))
     # short domains (Domain[0:4] on a short slice)
     for n in (1, 2, 3):
